@@ -9,16 +9,21 @@ import numpy as np
 
 
 class RecordingMetric:
-    def __init__(self, name="rec", offset=0.0, param_names=()):
+    def __init__(self, name="rec", offset=0.0, param_names=(), scribble=False):
         self.__name__ = name
         self.offset = float(offset)
         self.param_names = tuple(param_names)
+        self.scribble = scribble  # a metric that works in place on the arrays it was given (sorts / overwrites them)
         self.log = []
 
     def __call__(self, y_true, y_pred, **params):
         rec = {"y_true": np.asarray(y_true).tolist(), "y_pred": np.asarray(y_pred).tolist(),
                "params": {k: np.asarray(v).tolist() for k, v in params.items()}}
         self.log.append(rec)
+        if self.scribble:
+            for a in [y_true, y_pred] + list(params.values()):
+                if isinstance(a, np.ndarray) and a.flags.writeable and a.dtype.kind in "iuf":
+                    a[...] = -7
         return self.offset + float(len(self.log) - 1)
 
     def invocation(self, value):
